@@ -444,6 +444,46 @@ func runGrefcount(c *Ctx) {
 			shrank = "F(" + c.Role(v) + ")"
 		}
 	}
+	// … or a named boolean computed from the set before the delete (hadRefs := len(r.refs) != 0)
+	if shrank == "" && an.removeRef != nil {
+		rd := an.removeRef
+		delPos := token.NoPos
+		ast.Inspect(rd.Decl.Body, func(n ast.Node) bool {
+			if call, ok := n.(*ast.CallExpr); ok && len(call.Args) == 2 {
+				if id, ok := unparen(call.Fun).(*ast.Ident); ok && id.Name == "delete" {
+					if fv := fieldVar(call.Args[0], &core.Frame{Pkg: rd.Pkg}); fv != nil && core.FieldName(fv) == "refcount.RefCount.refs" && !delPos.IsValid() {
+						delPos = call.Pos()
+					}
+				}
+			}
+			return true
+		})
+		if delPos.IsValid() {
+			ast.Inspect(rd.Decl.Body, func(n ast.Node) bool {
+				as, ok := n.(*ast.AssignStmt)
+				if !ok || len(as.Lhs) != 1 || len(as.Rhs) != 1 || as.Pos() > delPos {
+					return true
+				}
+				v := identVar(as.Lhs[0], &core.Frame{Pkg: rd.Pkg})
+				if v == nil || v.IsField() || !isBoolType(v.Type()) {
+					return true
+				}
+				mentions := false
+				ast.Inspect(as.Rhs[0], func(y ast.Node) bool {
+					if e, ok := y.(ast.Expr); ok {
+						if fv := fieldVar(e, &core.Frame{Pkg: rd.Pkg}); fv != nil && core.FieldName(fv) == "refcount.RefCount.refs" {
+							mentions = true
+						}
+					}
+					return true
+				})
+				if mentions {
+					shrank = "F(" + c.Role(v) + ")"
+				}
+				return true
+			})
+		}
+	}
 	if shrank != "" {
 		lastGone = fand(atom(shrank), lastGone)
 	}
@@ -800,6 +840,9 @@ func releasedOnlyViaOnce(c *Ctx, a *agg) {
 					}
 				}
 			}
+			if !(inGo && inOnce) && onceGoChains(c, d, call) {
+				inGo, inOnce = true, true
+			}
 			a.note("R12", name+"/released-once-from-goroutine", call.Pos(), !(inGo && inOnce),
 				"the released callback is called only from a goroutine started under a sync.Once",
 				"the released callback is called outside the sync.Once / not from a new goroutine: it can fire twice, or run with the container's mutex held", nil)
@@ -990,4 +1033,127 @@ func assignedFromIndex(d *core.FuncDecl, field string) *types.Var {
 		return true
 	})
 	return out
+}
+
+// onceGoChains: every way the code at site can come to run — followed upwards through the function
+// literals that contain it and the places those literals are invoked from (called, started with go,
+// deferred, handed to a sync.Once's Do, directly or through the local they are bound to) — passes a go
+// statement and a sync.Once. A literal that is used in any other way (stored, passed to another
+// function) ends the chain without credit.
+func onceGoChains(c *Ctx, d *core.FuncDecl, site ast.Node) bool {
+	info := d.Pkg.TypesInfo
+	ei := core.EscapesOf(c.Prog, d)
+	// parent links
+	parent := map[ast.Node]ast.Node{}
+	var stack []ast.Node
+	ast.Inspect(d.Decl.Body, func(n ast.Node) bool {
+		if n == nil {
+			stack = stack[:len(stack)-1]
+			return true
+		}
+		if len(stack) > 0 {
+			parent[n] = stack[len(stack)-1]
+		}
+		stack = append(stack, n)
+		return true
+	})
+	enclosingLit := func(n ast.Node) *ast.FuncLit {
+		for x := parent[n]; x != nil; x = parent[x] {
+			if l, ok := x.(*ast.FuncLit); ok {
+				return l
+			}
+		}
+		return nil
+	}
+	isOnceDo := func(call *ast.CallExpr) bool {
+		sel, ok := unparen(call.Fun).(*ast.SelectorExpr)
+		if !ok || sel.Sel.Name != "Do" || len(call.Args) != 1 {
+			return false
+		}
+		t := info.TypeOf(sel.X)
+		return t != nil && strings.HasSuffix(t.String(), "sync.Once")
+	}
+	// how an expression node e (a literal or an identifier bound to it) is used: "call", "go", "defer", "once", "" (other)
+	useKind := func(e ast.Node) string {
+		par := parent[e]
+		for {
+			if pe, ok := par.(*ast.ParenExpr); ok {
+				e, par = pe, parent[pe]
+				continue
+			}
+			break
+		}
+		call, ok := par.(*ast.CallExpr)
+		if !ok {
+			return ""
+		}
+		if unparen(call.Fun) == e.(ast.Expr) || call.Fun == e.(ast.Expr) {
+			switch parent[call].(type) {
+			case *ast.GoStmt:
+				return "go"
+			case *ast.DeferStmt:
+				return "defer"
+			}
+			return "call"
+		}
+		if isOnceDo(call) && len(call.Args) == 1 && (call.Args[0] == e.(ast.Expr) || unparen(call.Args[0]) == e.(ast.Expr)) {
+			return "once"
+		}
+		return ""
+	}
+	var up func(l *ast.FuncLit, sawGo, sawOnce bool, depth int) bool
+	up = func(l *ast.FuncLit, sawGo, sawOnce bool, depth int) bool {
+		if l == nil {
+			return sawGo && sawOnce // reached the declared function's own body
+		}
+		if depth > 8 {
+			return false
+		}
+		type use struct {
+			kind string
+			at   ast.Node
+		}
+		var uses []use
+		bound := false
+		for obj, lits := range ei.Bound {
+			for _, bl := range lits {
+				if bl != l {
+					continue
+				}
+				bound = true
+				ast.Inspect(d.Decl.Body, func(x ast.Node) bool {
+					if id, ok := x.(*ast.Ident); ok && info.Uses[id] == obj {
+						uses = append(uses, use{useKind(id), id})
+					}
+					return true
+				})
+			}
+		}
+		if !bound {
+			uses = append(uses, use{useKind(l), l})
+		}
+		if len(uses) == 0 {
+			return false
+		}
+		for _, u := range uses {
+			g, o := sawGo, sawOnce
+			switch u.kind {
+			case "go":
+				g = true
+			case "once":
+				o = true
+			case "call", "defer":
+			default:
+				return false
+			}
+			if g && o {
+				continue // credit earned: whatever runs this chain, the site runs once, on its own goroutine
+			}
+			if !up(enclosingLit(u.at), g, o, depth+1) {
+				return false
+			}
+		}
+		return true
+	}
+	return up(enclosingLit(site), false, false, 0)
 }
